@@ -47,6 +47,7 @@ type Cell struct {
 	A    int      `json:"a"`
 	V    string   `json:"v"`
 	Safe bool     `json:"safe"`
+	Io   bool     `json:"io"` // inert-only argument variant
 	Cls  string   `json:"cls"`
 	S    []string `json:"S"`
 	N    int      `json:"n"`
@@ -486,7 +487,7 @@ func (w *world) digest() (string, string) {
 // ---- recording ----
 
 func (w *world) emit(r chain.Rec) {
-	def := chain.Rec{"t": w.tid, "act": "", "c": "", "m": "", "a": 0, "v": "", "safe": false, "msafe": false, "cls": "safe",
+	def := chain.Rec{"t": w.tid, "act": "", "c": "", "m": "", "a": 0, "v": "", "safe": false, "io": false, "msafe": false, "cls": "safe",
 		"S": []string{}, "S0": []string{}, "n": w.n, "res": "HALT", "ret": "other", "ntf": false, "nntf": 0, "valid": true,
 		"wch": false, "tch": false, "kind": "", "fault": "", "note": ""}
 	for k, v := range r {
@@ -621,7 +622,7 @@ func (w *world) runInvoke(cell Cell, e *tableEntry, ms *methodState, msafe bool)
 	if wch || tch || len(r.Events) > 0 || (r.Halt && ret != "false") {
 		fx.used = true
 	}
-	w.emit(chain.Rec{"act": "invoke", "c": cell.C, "m": cell.M, "a": cell.A, "v": cell.V, "safe": cell.Safe, "msafe": msafe,
+	w.emit(chain.Rec{"act": "invoke", "c": cell.C, "m": cell.M, "a": cell.A, "v": cell.V, "safe": cell.Safe, "io": cell.Io, "msafe": msafe,
 		"cls": cell.Cls, "S": names, "S0": cell.S, "res": r.Res(), "ret": ret, "ntf": len(r.Events) > 0, "nntf": len(r.Events),
 		"wch": wch, "tch": tch, "kind": cell.Kind, "fault": r.Fault})
 }
